@@ -55,7 +55,7 @@ CHECKS = {
              "jumps), Inv_C08_Both (a JUMPI with a valid target forks unless a limit forbids it, a JUMPI with a bad "
              "target still falls through, a path is only abandoned for a reason the limits give). Checked on the mirror "
              "for all small programs, replayed (executed-offset sets must agree), and on recorded executions of "
-             "programs with 11 kinds of legal/illegal constant and computed targets and dead code behind halts.",
+             "programs with 11 kinds of legal/illegal constant and computed targets and dead code behind halts. Cfg.tla computes, from the code bytes alone, an over-approximation of the offsets the EVM can reach; CfgTrace.tla checks that every offset the real VM executed on generated programs lies in it (Inv_C08_Edge/cfg) and, for far-jump programs with constant targets, that nothing reachable is left out (Inv_C08_Both/cfg). SymVM.tla also tracks the constants the code itself computes for jump targets (AbsStep: PUSH, PC, CODESIZE, DUP/SWAP/POP, ADD/SUB/MUL), so that the operand a jump finds is compared with what the code computes (computed-target programs: PC-relative, jump tables, from CODESIZE).",
         note="The operand value is the constant the instruction found (JumpOperand hook); its correctness as a "
              "denotation is C07/C09's business.",
         technique="TLA+ scheduler model; TLC model checking; replay; TLC trace validation",
@@ -152,7 +152,7 @@ CHECKS = {
              "array, packed entries at the right bit offsets with the right widths. IdiomsGen (TLC) enumerates every "
              "single variable over the grid and pairs at distinct slots; the harness assembles each description, the real "
              "pipeline analyses it and LayoutTrace.tla evaluates Inv_C04_Expected; random contracts of 1-12 variables "
-             "extend the enumeration.",
+             "extend the enumeration. The word-level lifting passes are also judged term by term (Lift.tla: bit provenance of 666/2900 terms enumerated by LiftGen - field reads moved down four ways and masked, packed writes of 1-3 fields, read-modify-write chains): Inv_C04_Expected/lift-bits, /lift-packed, /lift-packed-update.",
         note="Expected is deliberately weaker than type equality (kind, depth, offsets, widths, 20-byte-ness). One "
              "genuine shortfall is a known finding (fields of a packed variable that are only ever written, through a left shift).",
         technique="TLA+ generator model enumerated by TLC and replayed into the real pipeline; TLC trace validation of the layouts",
@@ -164,7 +164,7 @@ CHECKS = {
              "constant data incl. the proxy-string forms, pre-image of keccak(n) for n < 10000, +/- a constant); a program "
              "without storage accesses yields an empty layout. Evaluated by LayoutTrace.tla on every analysed program: "
              "storage-free look-alike hashing (computed and as pushed literals), look-alike hashes used as values, idiom contracts, "
-             "mutated real contracts.",
+             "mutated real contracts. Cfg.tla decides from the code bytes which storage instructions the EVM can possibly execute: a program none of whose SLOAD/SSTORE bytes is reachable (dead-storage family: after halting instructions, bad constant jumps of six kinds, inside the data of a truncated trailing PUSH) must have an empty layout whatever the tool itself executed (Inv_C05_NoPhantom/dead-storage).",
         note="The derivation closure is computed by the harness from ExecutionResult::all_values(). Known finding: a "
              "look-alike hash inside the VALUE operand of a store.",
         technique="TLA+ monitor specification; TLC trace validation of recorded key terms and layouts",
@@ -175,7 +175,7 @@ CHECKS = {
              "than keccak(n), n < 10000) on any explored path has an entry at exactly that 256-bit index when the analysis "
              "succeeds; checked by LayoutTrace.tla on programs with keys of every magnitude (small, >= 2^64, >= 2^128, "
              "2^256-1, EIP-1967) read-only / write-only / mixed, with values up to and just beyond the size limit, behind forks and "
-             "before errors, and on all other corpora.",
+             "before errors, and on all other corpora. Literal keys right next to the hash of a small slot number (keccak(n) +- k) and one SSTORE / SLOAD instruction shared by several call sites with different literal keys are part of the literal-key family.",
         note="Indices are compared as full 64-digit hex words. The storage of a path is also specified on its own (Storage.tla): "
              "random call histories on the real Storage are validated by StorageTrace.tla; a read of a never-written key that the "
              "storage does not remember is Inv_C06_NoMissed/storage-model.",
@@ -198,7 +198,7 @@ CHECKS = {
              "Inv_C12_InSlot (offset < 256 and offset + width <= 256 when the width is known) evaluated by LayoutTrace.tla "
              "on every successful analysis of every corpus, in particular mask-and-shift programs with shift amounts and "
              "mask positions from {0, 8, 248, 255, 256, 257, 300, 2^32, 2^64-1, 2^64, 2^255, 2^256-1} through SHR/SHL/SAR/"
-             "DIV/MUL, SIGNEXTEND with every boundary constant in either position, nested packed idioms and mutated real contracts.",
+             "DIV/MUL, SIGNEXTEND with every boundary constant in either position, nested packed idioms and mutated real contracts. Lift.tla's InWord is evaluated on every term LiftGen enumerates after the real lifting passes ran on it (Inv_C12_InSlot/lift), including positions that leave the word; packed-dataflow programs (fields with holes, shared values packed again high up in other slots, reads that cut fields) and bulk copies of computed constant size extend the generated layouts.",
         note="Width is defined for every AbiType of known width.",
         technique="TLA+ layout well-formedness invariants; TLC trace validation",
         ref="DESIGN.md §4 C12"),
@@ -245,7 +245,7 @@ CHECKS = {
              "interpreter's run along it is verified step by step by Evm!Step, every node of the final symbolic stack, memory "
              "words and storage generations is given a scratch value verified by Evm!NodeClaimOK (the operator over its operands "
              "in EVM order), and EvmTrace.tla checks Inv_C07_Stack, Inv_C07_Memory, Inv_C07_Storage (exactly this path's "
-             "writes, in order, one entry per slot word) and Inv_C07_Path.",
+             "writes, in order, one entry per slot word) and Inv_C07_Path. The memory of a path is also specified on its own (Memory.tla): MemoryMC checks every history of <= 4 calls over offsets of which two pairs agree modulo 2^64 against a concrete memory, and random histories on the real Memory (offsets agreeing in their low 16..255 bits, pushed or computed, byte stores, slices around the copy limit) are validated by MemoryTrace.tla (Inv_C07_Memory/memory-model). A fold-offset family uses every ALU result as a memory offset (XOR-ed with the expected value), so that a wrong fold of the operator moves the store.",
         note="Four genuine shortfalls are known findings, recognised by what the path did (SIGNEXTEND, overflowing ADDMOD/MULMOD, "
              "BYTE with an index >= 2^253, programs that address one slot through two key expressions); a disagreement is excused only "
              "when every disagreeing item is computed from a node built at an instruction that ran into one of them (per-node taint), "
